@@ -20,6 +20,7 @@ sys.path.insert(0, os.path.join(HERE, 'vx'))
 import extract  # noqa: E402
 import checks   # noqa: E402
 import kanirun  # noqa: E402
+import gridrun  # noqa: E402
 
 SEMANTIC = [
     'postcondition not satisfied',
@@ -302,6 +303,9 @@ def main():
     pid = a.property
     seed = int(os.environ.get('VERIF_SEED', '0') or 0)
     if a.replay:
+        rep = json.load(open(a.replay))
+        if (rep.get('failing_input') or {}).get('grid'):
+            return gridrun.replay(rep, a.repo)
         return kanirun.replay(a.replay, a.repo)
     spec = checks.CHECKS[pid]
     t0 = time.time()
@@ -309,12 +313,22 @@ def main():
     results = []
     undecided = []
     selfval = []
+    grid_res = None
+    grid_undecided = None
     known, fixed = load_known()
     known_for = {k['obligation']: k for k in known if pid in k['property'].split(',')}
     try:
         results, undecided = run_units(pid, spec, a.repo, workdir, a.tier, seed)
         if a.tier == 'thorough':
             selfval = self_validate(pid, spec, a.repo, workdir, known_for, seed)
+        # bounded stand-in (never counted as proof): see gridrun.py for when it runs
+        if spec.get('grid'):
+            pre_viol = classify(pid, spec, results, known_for)[0]
+            if undecided or pre_viol or a.tier == 'thorough':
+                try:
+                    grid_res = gridrun.run(pid, spec['grid'], a.repo, workdir)
+                except gridrun.Undecided as e:
+                    grid_undecided = str(e)
     finally:
         if not a.keep:
             shutil.rmtree(workdir, ignore_errors=True)
@@ -322,6 +336,13 @@ def main():
     only = spec.get('only_safety', False)
     clause_filter = spec.get('clause_prefixes')  # None = all
     violations, known_hits, ignored = classify(pid, spec, results, known_for)
+    proof_violations = len(violations)
+    if grid_res:
+        for f in grid_res['failures']:
+            if f['obligation'] in known_for:
+                known_hits.append((f, known_for[f['obligation']]))
+            else:
+                violations.append(f)
 
     # ---------------------------------------------------------------- evidence
     fns, samples, trusted, bounded_units = [], [], [], []
@@ -402,7 +423,10 @@ def main():
             'solver_s': round(solver_ms / 1000.0, 3),
             'units': [{k: r[k] for k in ('unit', 'backend', 'wall_s', 'rules', 'local_rewrites', 'variants', 'verified_fns', 'error_fns', 'generated_lines') if k in r} for r in results],
             'per_function_solver': [x for r in results for x in r.get('function_breakdown', [])][:80],
-            'bounded_units': bounded_units,
+            'bounded_units': bounded_units + ([{'harness': 'grid ' + ', '.join('%s (%d cases, %d failing)' % (k, v['cases'], v['fails']) for k, v in grid_res['per_grid'].items()),
+                                               'bound': grid_res['bound'], 'status': 'FAILED' if grid_res['failures'] else 'SUCCESS', 'cmd': grid_res['cmd'], 'wall_s': grid_res['wall_s'],
+                                               'why_it_ran': 'proof undecided on this tree' if undecided else ('an obligation failed' if proof_violations else 'thorough tier')}] if grid_res else []),
+            'grid_undecided': grid_undecided,
             'unproved': spec.get('unproved', []),
             'known_findings_hit': [k['obligation'] for _f, k in known_hits],
             'undecided': undecided,
@@ -442,6 +466,11 @@ def main():
         for u in undecided:
             print('UNDECIDED property=%s %s' % (pid, u))
         if rc == 0:
+            if grid_res and not grid_res['failures']:
+                # the proof is undecided on this tree; the bounded stand-in explored its whole grid and the property held there
+                print('OK-BOUNDED property=%s proof=undecided bounded-stand-in=%s known-findings=%d wall=%.1fs'
+                      % (pid, ','.join('%s:%d-cases' % (k, v['cases']) for k, v in grid_res['per_grid'].items()), len(known_hits), wall))
+                return 0
             rc = 2
     if rc == 0:
         print('OK property=%s obligations=%d discharged=%d known-findings=%d wall=%.1fs' % (pid, obligations, discharged, len(known_hits), wall))
